@@ -13,6 +13,25 @@ def run(tier, seed, jobs):
     cov, viol, harness = run_family(FAMILY, tier, configs, jobs,
                                     max_execs=12000 if tier == "quick" else 400000, seed=seed)
     cov["max_deviations"] = budget
+    # the same scenario scripts over real UNIX / TCP loopback sockets on asyncio and uvloop
+    # (sizes scaled up to exceed real kernel buffers): sampling of kernel behaviour, labelled so
+    import multiprocessing as mp
+    from ..families import c18_sockets as fam
+    n_prog = len(fam.scenarios(tier))
+    tasks = [(i, tier, lk, sc) for i in range(n_prog) for lk in ("asyncio", "uvloop")
+             for sc in ((1, 40000) if tier == "quick" else (1, 4096, 400000))]
+    real_n = 0
+    with mp.Pool(min(jobs, 8)) as pool:
+        for idx, n, bad in pool.imap_unordered(fam.conform_real, tasks, chunksize=4):
+            real_n += n
+            harness.extend("real-socket conformance: " + b for b in bad[:3])
+    cov["real_socket_runs"] = real_n
+    cov["traces_validated_against_impl"] = real_n
+    cov["real_socket_note"] = ("each one-way / slow-reader / duplex scenario also runs over real "
+                               "UNIX socketpairs and TCP loopback on asyncio and uvloop with "
+                               "message sizes x1 and x40000 (thorough: x4096, x400000); "
+                               "end-to-end observations must satisfy the same oracle (sampling "
+                               "of kernel behaviour, not exhaustive)")
     cov["rule"] = (
         "scenarios: message-size sequences from {1,2,3,9} (9 > model kernel buffer of 4 / pipe of "
         "3 bytes) x max_bytes {1,2,65536} x end {send_eof, close, none}, slow reader "
